@@ -483,6 +483,9 @@ impl BucketSegmentReader {
         let record = match self.reader.read_record(start_offset, hint) {
             Ok(record) => record,
             Err(seglog::read::ReadError::OutOfBounds { .. }) => return Ok(None),
+            // The zeroes behind the last record of a segment (opened without a flushed offset)
+            // mark the end of its data as well
+            Err(seglog::read::ReadError::TruncationMarker { .. }) => return Ok(None),
             Err(err) => return Err(err.into()),
         };
 
